@@ -68,12 +68,24 @@ def screamingSnake (s : String) : String :=
       (if sep then ['_'] else []) ++ [c.toUpper] ++ go (some c) rest
   String.ofList (go none cs)
 
+/-- `f<0/1>/df<hex+hex..>/s<0/1>/ds<0/1>/q<0/1>/qi<hex>`: the whole token is the payload text, the
+`df` member is also decoded (the writer checks it for enum fields) -/
+def decodeLR (tok : String) : Option LRPayload :=
+  match tok.splitOn "/" with
+  | [_, df, _, _, _, _] =>
+    if df.startsWith "df" then
+      let body := (df.drop 2).toString
+      if body.isEmpty then some { text := tok, defaultFilters := [] }
+      else ((body.splitOn "+").mapM unhexStr).map fun l => { text := tok, defaultFilters := l }
+    else none
+  | _ => none
+
 def decodeSpec (num : Nat) (toks : List String) : Option Property := do
   let m ← parseKV toks
   let name ← unhexStr (m.get "name")
   let desc ← optStr (m.get "desc")
   let lrTok := m.get "lr"
-  let lr : ListRules := if lrTok == "~" then none else some lrTok
+  let lr : ListRules ← if lrTok == "~" then pure none else (decodeLR lrTok).map some
   let r := m.get "r" == "1"
   let item : Schema ←
     match m.get "kind" with
@@ -347,7 +359,7 @@ def patternsOf (p : Property) : List String :=
 def showLR (lr : ListRules) : String :=
   match lr with
   | none => "~"
-  | some p => if p == zeroLR then "~" else p
+  | some p => if p.text == zeroLR then "~" else p.text
 
 def showNames (l : List String) : String :=
   if l.isEmpty then "~" else String.intercalate "," (l.map hexStr)
